@@ -298,6 +298,14 @@ def single_items():
            ('bracket', False, [lit('.', 'esc'), lit('*', 'esc')]), ('bracket', False, [lit(']', 'esc'), lit('[', 'esc')]),
            ('bracket', False, [lit(0x00E9, 'x4')]), ('bracket', False, [lit('a'), lit(0x0100, 'x4')]), ('bracket', False, [('range', lit(0x00E0, 'x4'), lit(0x00E9, 'x4'))]),
            ('bracket', True, [lit(0x00E9, 'x4')])]
+    # the ends of the universe (0x01, 0x7F) and their neighbours, positively and negated, alone and as range ends
+    for cp in (0x01, 0x02, 0x7E, 0x7F):
+        br += [('bracket', False, [lit(cp, 'x2')]), ('bracket', True, [lit(cp, 'x2')])]
+    br += [('bracket', True, [('range', lit(0x20, 'x2'), lit(0x7F, 'x2'))]), ('bracket', False, [('range', lit(0x7E, 'x2'), lit(0x7F, 'x2'))]),
+           ('bracket', True, [('range', lit(0x01, 'x2'), lit(0x1F, 'x2')), lit(0x7F, 'x2')]), ('bracket', True, [('range', lit(0x01, 'x2'), lit(0x7E, 'x2'))]),
+           ('bracket', True, [('class', r'\D')]), ('bracket', True, [('class', r'\S')]), ('bracket', True, [('class', r'\W')]), ('bracket', True, [('aclass', '[:ascii:]')]),
+           ('bracket', False, [('range', lit(0x7F, 'x2'), lit(0x0080, 'x4'))]), ('bracket', False, [lit(0x0080, 'x4')]), ('bracket', True, [lit(0x0080, 'x4'), lit('a')])]
+    out += [lit(0x7F, 'x2'), lit(0x01, 'x2'), lit(0x0080, 'x4')]
     return out + br
 
 
